@@ -234,6 +234,20 @@ def install(I):
     for key, f in list(I.models.items()):
         if getattr(f, "__name__", "") == "_fromkeys":
             del I.models[key]
+    # float("-inf") etc.: the interpreter would allocate a heap object for a builtin value type
+    def _float(I, v=0.0):
+        if isinstance(v, SNum):
+            return v
+        if isinstance(v, (str, int, float)):
+            try:
+                return float(v)
+            except ValueError as e:
+                raise PyExc(I.make_exc(ValueError, *e.args))
+        raise Unsupported(f"float({type(v).__name__})")
+
+    import builtins as _b
+
+    I.models[id(_b.float)] = _float
     I.models[id(pd.to_datetime)] = to_datetime
     I.models[id(pd.to_timedelta)] = to_timedelta
 
